@@ -633,6 +633,12 @@ class SimContext:
         self.pipe_queues.append(q)
         return q
 
+    def SimpleQueue(self):
+        # put() writes into the pipe synchronously (no feeder thread): no in-flight window
+        q = SimPipeQueue(self.k, 0, self._name("sq"), False, None)
+        self.pipe_queues.append(q)
+        return q
+
     def Lock(self):
         return SimLock(self.k, self._name("lock"))
 
